@@ -7,7 +7,8 @@ usage: seeded_report.py [Cxx ...]
 """
 import glob, json, os, re, subprocess, sys
 
-ROOT = "/verif"
+ROOT = os.environ.get("VERIF_ROOT", "/verif")
+REPO = os.environ.get("VERIF_REPO", "/repo")
 # outcome of the checks as they were when the change was first tried (before any strengthening)
 FIRST = {
     "C01/1": "missed", "C01/2": "missed", "C05/2": "missed", "C06/1": "missed", "C06/2": "missed",
@@ -31,15 +32,15 @@ def main():
         meta = json.load(open(d + "meta.json"))
         res_path = d + "result.json"
         if (not want or prop in want) and os.path.exists(d + "patch.diff"):
-            if sh("git", "-C", "/repo", "status", "--porcelain").stdout.strip():
+            if sh("git", "-C", REPO, "status", "--porcelain").stdout.strip():
                 print("/repo not clean"); sys.exit(3)
-            if sh("git", "-C", "/repo", "apply", d + "patch.diff").returncode != 0:
+            if sh("git", "-C", REPO, "apply", d + "patch.diff").returncode != 0:
                 res = {"status": "patch does not apply"}
             else:
                 try:
                     r = sh(f"{ROOT}/check", prop, "quick")
                 finally:
-                    sh("git", "-C", "/repo", "checkout", "--", ".")
+                    sh("git", "-C", REPO, "checkout", "--", ".")
                 lines = [l for l in (r.stdout + r.stderr).splitlines() if l.startswith(("signature", "VIOLATION"))]
                 sigs = sorted({l.split(":", 1)[1].strip()[:90] for l in lines if l.startswith("signature")})
                 res = {"status": {0: "missed", 1: "reported", 2: "inconclusive"}.get(r.returncode, str(r.returncode)),
